@@ -150,6 +150,14 @@ Section Path.
         rewrite Nat.ltb_irrefl.
         destruct b; simpl; rewrite ?Nat.ltb_irrefl; destruct (IH (length l - m) m ltac:(lia)) as (st & ->); eauto.
   Qed.
+  (* from the iterator a caller obtains: segments P *)
+  Theorem interleave_from_start w : exists st, run w (segments P) = Some (expect w 0 0, st).
+  Proof.
+    unfold segments. rewrite Hne, Hfirst.
+    replace (length pfx) with (o 0) by apply o_0.
+    replace (length P + 1) with (o (length l - 0)) by (rewrite Nat.sub_0_r; apply o_n).
+    apply interleave. lia.
+  Qed.
 End Path.
 Check interleave.
 Print Assumptions interleave.
